@@ -542,7 +542,9 @@ def model_export_to_file(f, model=None, repo=None):
     if repo or hasattr(model, "_tx_model_repository"):
         if not repo:
             repo = model._tx_model_repository.all_models
-            if not repo:
+            if not any(m is model for m in repo):
+                # The model itself is not in its repository (loaded from a
+                # string, or nothing was imported)
                 _export(model)
         for m in repo:
             _export_subgraph(m)
